@@ -1,34 +1,49 @@
 --------------------------------- MODULE AseApi ---------------------------------
-(* C16: the loaded sprite as an immutable value shared by threads.               *)
-(* Threads execute finite lists of accessor calls on one shared reference. An    *)
-(* accessor is a function of (sprite, call): Eval. The machine never changes     *)
-(* `sprite`; a call's result is Eval at the moment it returns (End), whatever    *)
-(* other calls are in flight. Calls and results are abstract here; Trace_Api     *)
-(* binds them to digests recorded from the implementation.                       *)
+(* C16: loaded sprites as immutable values shared by threads.                    *)
+(* Threads execute finite lists of calls: <<"load", f>> parses file f into the   *)
+(* store (loading is a function of the bytes: Parse), <<"get", f, c>> runs       *)
+(* accessor c on the sprite loaded from f. An accessor is a function of          *)
+(* (sprite, call): Eval. No call changes a sprite that is already in the store - *)
+(* neither another accessor nor the loading of ANOTHER file; a call's result is  *)
+(* Eval at the moment it returns (End), whatever other calls are in flight.      *)
+(* Calls and results are abstract here; Trace_Api binds accessor calls to        *)
+(* digests recorded from real threads, Trace_Load (`twice` events) binds "an     *)
+(* earlier sprite is unchanged after another load".                              *)
 EXTENDS Integers, Sequences, FiniteSets
 
-CONSTANTS Threads, Calls, Sprite, Eval(_, _)
-VARIABLES sprite, todo, inflight, log
-vars == <<sprite, todo, inflight, log>>
+CONSTANTS Threads, Files, Accessors, Parse(_), Eval(_, _), MaxLen
+VARIABLES store, todo, inflight, log
+vars == <<store, todo, inflight, log>>
 
-Lists == UNION {[1..n -> Calls] : n \in 0..2}
-Init == /\ sprite = Sprite
+NotLoaded == [loaded |-> FALSE]
+Calls == {<<"load", f>> : f \in Files} \cup {<<"get", f, c>> : f \in Files, c \in Accessors}
+Lists == UNION {[1..n -> Calls] : n \in 0..MaxLen}
+Init == /\ store = [f \in Files |-> NotLoaded]
         /\ todo \in [Threads -> Lists]
         /\ inflight = [t \in Threads |-> <<>>]
         /\ log = <<>>
+\* an accessor call can only begin on a sprite that exists
 Begin(t) == /\ inflight[t] = <<>> /\ todo[t] # <<>>
+            /\ LET c == Head(todo[t]) IN c[1] = "get" => store[c[2]] # NotLoaded
             /\ inflight' = [inflight EXCEPT ![t] = <<Head(todo[t])>>]
             /\ todo' = [todo EXCEPT ![t] = Tail(@)]
-            /\ UNCHANGED <<sprite, log>>
+            /\ UNCHANGED <<store, log>>
 End(t) == /\ inflight[t] # <<>>
-          /\ log' = Append(log, [thread |-> t, call |-> inflight[t][1], result |-> Eval(sprite, inflight[t][1])])
+          /\ LET c == inflight[t][1] IN
+               IF c[1] = "load"
+               THEN /\ store' = [store EXCEPT ![c[2]] = Parse(c[2])]
+                    /\ log' = Append(log, [thread |-> t, call |-> c, result |-> "loaded"])
+               ELSE /\ log' = Append(log, [thread |-> t, call |-> c, result |-> Eval(store[c[2]], c[3])])
+                    /\ UNCHANGED store
           /\ inflight' = [inflight EXCEPT ![t] = <<>>]
-          /\ UNCHANGED <<sprite, todo>>
+          /\ UNCHANGED todo
+\* a thread whose next accessor call waits for a sprite nobody will load is simply stuck (deadlock checking is off)
 Next == \E t \in Threads : Begin(t) \/ End(t)
 Spec == Init /\ [][Next]_vars
 
-Immutable == sprite = Sprite
-\* every result is a function of the call alone: any interleaving, repetition or permutation
+\* a sprite in the store is the value of its file, whatever else has been loaded or called since
+Immutable == \A f \in Files : store[f] \in {NotLoaded, Parse(f)}
+\* every accessor result is a function of (file, accessor) alone: any interleaving, repetition, permutation, other loads
 Functional == \A i, j \in DOMAIN log : log[i].call = log[j].call => log[i].result = log[j].result
-Deterministic == \A i \in DOMAIN log : log[i].result = Eval(Sprite, log[i].call)
+Deterministic == \A i \in DOMAIN log : log[i].call[1] = "get" => log[i].result = Eval(Parse(log[i].call[2]), log[i].call[3])
 =============================================================================
